@@ -113,6 +113,14 @@ func parseClusterNodesSlot(segements []string) ([]int, error) {
 			if err != nil {
 				return nil, errInvalidClusterNodes
 			}
+			// the slots out of range are ignored anyway, don't materialize
+			// an arbitrarily large range.
+			if start < 0 {
+				start = 0
+			}
+			if end >= slotNum {
+				end = slotNum - 1
+			}
 			for i := start; i <= end; i++ {
 				slots = append(slots, i)
 			}
